@@ -218,7 +218,10 @@ def run_case(kind, params, ctx):
         k = rng.randrange(1, N)
         suffix = rand_bytes(rng, rng.choice([0, 1, 22, 71]))
         exp = r58.check_encode(bytes([NETBASE[net] + TYPES.index(typ)]) + k32(k) + suffix)
-        argv = ["wif", "-T", typ, "-N", net] + (["-D", suffix.hex()] if suffix else []) + [clihelp.fmt_flag(fmt)]
+        omit = params["salt"] % 2 == 0      # options at their parser default are also LEFT OUT (p2pkh / mainnet)
+        argv = ["wif"] + ([] if (omit and typ == "p2pkh") else ["-T", typ]) + ([] if (omit and net == "mainnet") else ["-N", net]) + (["-D", suffix.hex()] if suffix else []) + [clihelp.fmt_flag(fmt)]
+        if len(argv) < 6 - (0 if suffix else 2):
+            ctx.count("cli.wif_default_forms")
         r = clihelp.run(argv, clihelp.rep(k32(k), fmt))
         ctx.count("cli.wif")
         ctx.seen("cliwif", (k, net, typ, suffix))
